@@ -81,7 +81,9 @@ func hsNewWorld(t testing.TB, retries int) *hsWorld {
 		base["punchy"] = m{"punch": false, "respond": false}
 		base["lighthouse"] = m{"interval": 0}
 		base["logging"] = m{"level": "error"}
+		restore := w.logSetup()
 		ctrl, vpn, udpAddr, cfg := newSimpleServerWithUdp(cert.Version2, ca, caKey, name, nets, udp, base)
+		restore()
 		nd := &vNode{Name: name, Ctrl: ctrl, Vpn: vpn, UDP: udpAddr, Cfg: cfg, stop: make(chan struct{}), kick: make(chan struct{}, 1)}
 		w.Nodes[name] = nd
 		w.byUDP[udpAddr] = nd
@@ -111,7 +113,9 @@ func hsNewWorld(t testing.TB, retries int) *hsWorld {
 		base["logging"] = m{"level": "error"}
 		base["pki"] = m{"initiating_version": 1}
 		base["listen"] = m{"send_recv_error": "never", "host": hsUDP(5).Addr().String(), "port": 4242}
+		restore := w.logSetup()
 		ctrl, vpn, _, cfg := newServer([]cert.Certificate{w.CA}, []cert.Certificate{c1, c2}, keyPEM, base)
+		restore()
 		nd := &vNode{Name: "P", Ctrl: ctrl, Vpn: vpn, UDP: hsUDP(5), Cfg: cfg, stop: make(chan struct{}), kick: make(chan struct{}, 1)}
 		w.Nodes["P"], w.byUDP[nd.UDP], w.udpName[nd.UDP] = nd, nd, "P"
 	}
